@@ -10,6 +10,7 @@ import MetapypeModel.Model.Registry
 import MetapypeModel.Model.Prune
 import MetapypeModel.Model.Expand
 import MetapypeModel.Model.Normalize
+import MetapypeModel.Model.Evaluate
 import MetapypeModel.Gen.Rules
 import MetapypeModel.Gen.Facts
 /-
@@ -244,6 +245,10 @@ def handle (j : Json) : Json :=
       | some t' => treeJson t'
   | some "normalize" =>
       .str (String.ofList (normalizeText ((optStr (fld j "s")).getD "").toList))
+  | some "evaluate" =>
+      let t := getTree (fld j "tree")
+      let pn := optStr (fld j "parent")
+      .arr ((evalTree pn t []).map (fun wp => Json.arr #[.str wp.1, pathJson wp.2])).toArray
   | some "isequal" =>
       Json.bool (isEqual (getTree (fld j "a")) (getTree (fld j "b")))
   | some "tables" =>
